@@ -253,9 +253,12 @@ impl Type {
                         .element_type
                         ._is_a_template_for(&concrete_array.element_type, bindings)
             }
-            (Reference(concrete_reference), Reference(templated_reference)) => templated_reference
-                .inner
-                ._is_a_template_for(&concrete_reference.inner, bindings),
+            (Reference(concrete_reference), Reference(templated_reference)) => {
+                concrete_reference.is_mutable == templated_reference.is_mutable
+                    && templated_reference
+                        .inner
+                        ._is_a_template_for(&concrete_reference.inner, bindings)
+            }
             (Tuple(concrete_tuple), Tuple(templated_tuple)) => {
                 if concrete_tuple.elements.len() != templated_tuple.elements.len() {
                     return false;
